@@ -22,7 +22,13 @@ def apply(m):
     open(path, "w").write(s.replace(m["old"], m["new"], 1))
     return True
 def main():
-    only = sys.argv[1:]
+    args = sys.argv[1:]
+    report = None
+    if "--json" in args:
+        i = args.index("--json"); report = args[i+1]; del args[i:i+2]
+    lenient = os.environ.get("SELFTEST_LENIENT") == "1"
+    only = args
+    skipped = []
     rc, st = run(f"git -C {REPO} status --porcelain")
     if st.strip():
         print("refusing: /repo has uncommitted changes"); sys.exit(2)
@@ -36,7 +42,10 @@ def main():
                 continue
             try:
                 if not apply(m):
-                    print(f"{kind}/{name}: NOT APPLICABLE (text not found)"); bad.append(name); continue
+                    print(f"{kind}/{name}: NOT APPLICABLE (text not found)")
+                    if lenient: skipped.append(name)
+                    else: bad.append(name)
+                    continue
                 sub = "godev" if m["file"].startswith("godev/") else "."
                 rc, out = run(f"cd {REPO}/{sub} && go build ./... 2>&1 | head -3")
                 if out.strip():
@@ -64,5 +73,7 @@ def main():
             finally:
                 restore()
     print(f"killed={killed} survived={survived} problems={bad}")
+    if report:
+        json.dump({"mutants_killed": killed, "mutants_survived": survived, "problems": bad, "not_applicable_on_this_tree": skipped}, open(report, "w"), indent=1)
     sys.exit(1 if bad else 0)
 main()
